@@ -179,6 +179,49 @@ template <class A> static std::string runDec(const std::vector<std::string> &chu
     return std::string(f ? "ok " : "trunc ") + tohex(out) + flags;
 }
 
+// encode with the implementation, then decode its output with the same implementation
+template <class A> static std::string runRoundTrip(const std::string &esp, const std::string &dsp, const std::string &src) {
+    const std::string e = runEnc<A>(chunksOf(esp, src));
+    if (e.find(' ') != std::string::npos) return "ENC-" + e;
+    return runDec<A>(chunksOf(dsp, unhex(e)));
+}
+
+static uint32_t crc32Update(uint32_t crc, const unsigned char *p, size_t n) {
+    static uint32_t table[256];
+    static bool ready = false;
+    if (!ready) {
+        for (uint32_t i = 0; i < 256; ++i) { uint32_t c = i; for (int k = 0; k < 8; ++k) c = (c & 1) ? (0xEDB88320u ^ (c >> 1)) : (c >> 1); table[i] = c; }
+        ready = true;
+    }
+    crc = ~crc;
+    for (size_t i = 0; i < n; ++i) crc = table[(crc ^ p[i]) & 0xFF] ^ (crc >> 8);
+    return ~crc;
+}
+
+// every 3-byte string with first byte `a0` (65536 of them): encode through update+final and through
+// encode_raw, decode the result; report counts and the CRC-32 of all encodings concatenated in order
+template <class A> static std::string runSweep3(unsigned a0) {
+    uint32_t crc = 0; size_t rtfail = 0, rawdiff = 0, lenbad = 0;
+    for (unsigned b = 0; b < 256; ++b) for (unsigned c = 0; c < 256; ++c) {
+        const uint8_t src[3] = { static_cast<uint8_t>(a0), static_cast<uint8_t>(b), static_cast<uint8_t>(c) };
+        typename A::ECtx ec; A::einit(&ec);
+        char enc[16]; memset(enc, 0, sizeof(enc));
+        size_t n = A::eupdate(&ec, enc, 3, src);
+        if (n > A::encLen(3)) ++lenbad;
+        n += A::efinal(&ec, enc + n);
+        char raw[16]; memset(raw, 0, sizeof(raw));
+        A::eraw(raw, 3, src);
+        if (n != A::encRawLen(3) || memcmp(raw, enc, n) != 0) ++rawdiff;
+        crc = crc32Update(crc, reinterpret_cast<unsigned char *>(enc), n);
+        typename A::DCtx dc; A::dinit(&dc);
+        uint8_t dec[16]; size_t dl = 0;
+        if (!A::dupdate(&dc, &dl, dec, n, enc) || !A::dfinal(&dc) || dl != 3 || memcmp(dec, src, 3) != 0) ++rtfail;
+    }
+    std::ostringstream o;
+    o << "n=65536 rtfail=" << rtfail << " rawdiff=" << rawdiff << " lenbad=" << lenbad << " crc=" << crc;
+    return o.str();
+}
+
 int main() {
     std::string line;
     basicSetup();
@@ -197,6 +240,12 @@ int main() {
             } else if (op == "b64.dec" && a.size() == 3) {
                 auto ch = chunksOf(a[1], unhex(a[2]));
                 o << runDec<bundled::Api>(ch) << " | " << runDec<linked::Api>(ch);
+            } else if (op == "b64.rt" && a.size() == 4) {
+                auto s = unhex(a[3]);
+                o << runRoundTrip<bundled::Api>(a[1], a[2], s) << " | " << runRoundTrip<linked::Api>(a[1], a[2], s);
+            } else if (op == "b64.isweep3" && a.size() == 2) {
+                const unsigned a0 = static_cast<unsigned>(std::stoul(a[1])) & 0xFF;
+                o << runSweep3<bundled::Api>(a0) << " | " << runSweep3<linked::Api>(a0);
             } else if (op == "basic" && a.size() == 3) {
                 o << runBasic(a[1] == "1", unhex(a[2]));
             } else o << "ERR unknown-entry " << op;
